@@ -12,7 +12,7 @@ import (
 
 func init() {
 	register(&propCheck{id: "C08", needRoot: true, run: checkC08,
-		explanation: "Decided statically (narrow): (1) ORDER — in every function that calls a `func(...) bool` visitor, the visitor's result is not ignored, no further visitor call is reachable from its `true` edge, and that edge only reaches returns of `true` (a callback that asks to stop stops the iteration at that element); (2) OWN — an iterator's validity flag is set to true only by its constructor (or monotonically under its own current value), so an iterator that became invalid stays invalid; (3) ERR — iterators surface their sticky error and wrappers consult the wrapped iterator. Added in the build round: merge of persisted and uncommitted keys over the ordering domain (ORDER-merge-predicate); per-node range pruning / yield table of the tree-walk iterator (ORDER-traversal-table); index iterator domain (TABLE-index-domain); index iterators only for a tree at the latest version (DOM-index-iter-guard). NOT decided: range, order, exactly-once and value currency of the yielded elements, nor agreement of the three iterator implementations (all runtime orderings of byte strings)."})
+		explanation: "Decided statically (narrow): (1) ORDER — in every function that calls a `func(...) bool` visitor, the visitor's result is not ignored, no further visitor call is reachable from its `true` edge, and that edge only reaches returns of `true` (a callback that asks to stop stops the iteration at that element); (2) OWN — an iterator's validity flag is set to true only by its constructor (or monotonically under its own current value), so an iterator that became invalid stays invalid; (3) ERR — iterators surface their sticky error and wrappers consult the wrapped iterator. Added in the build round: merge of persisted and uncommitted keys over the ordering domain (ORDER-merge-predicate); per-node range pruning / yield table of the tree-walk iterator (ORDER-traversal-table); index iterator domain (TABLE-index-domain); index iterators only for a tree at the latest version (DOM-index-iter-guard). NOT decided: range, order, exactly-once and value currency of the yielded elements, nor agreement of the three iterator implementations (all runtime orderings of byte strings). Rules added in the later seeding rounds (each listed with what it decides in this file's rule table) are described in DESIGN.md §3 \"Third and fourth seeding rounds\" and Appendix C3–C5."})
 }
 
 func isBoolVisitorType(t types.Type) bool {
